@@ -1100,6 +1100,18 @@ GD_TABLE = [
     ('2**3', 'err', 'parse', None), ('2 3 +', 'err', 'parse', None), ('sin()', 'err', 'parse', None), ('(2', 'err', 'parse', None),
     ('2−3', 'err', 'parse', None), ('２', 'err', 'parse', None), ('2\t3', 'err', 'parse', None), ('p\ti', 'err', 'parse', None),
     ('', 'blank', None, None), ('   ', 'blank', None, None), ('\t\n', 'blank', None, None),
+    # (appended) every default function name resolves to THAT function: one characteristic value each
+    ('arccot(0)', 'val', _PI / 2, None), ('arccot(1)', 'val', _PI / 4, None), ('arccot(-1)', 'val', -_PI / 4, None),
+    ('arctan(1)', 'val', _PI / 4, None), ('arcsin(1)', 'val', _PI / 2, None), ('arccos(0)', 'val', _PI / 2, None),
+    ('arcsec(2)', 'val', _PI / 3, None), ('arccsc(1)', 'val', _PI / 2, None), ('arccsc(2)', 'val', _PI / 6, None),
+    ('sec(0)', 'val', 1.0, None), ('csc(pi/2)', 'val', 1.0, None), ('cot(pi/4)', 'val', 1.0, None), ('tan(pi/4)', 'val', 1.0, None),
+    ('sinh(1)', 'val', math.sinh(1), None), ('cosh(0)', 'val', 1.0, None), ('tanh(1)', 'val', math.tanh(1), None), ('sech(0)', 'val', 1.0, None),
+    ('csch(1)', 'val', 1 / math.sinh(1), None), ('coth(1)', 'val', 1 / math.tanh(1), None),
+    ('arcsinh(1)', 'val', math.asinh(1), None), ('arccosh(2)', 'val', math.acosh(2), None), ('arctanh(0.5)', 'val', math.atanh(0.5), None), ('arcsech(0.5)', 'val', math.acosh(2), None),
+    ('arccsch(1)', 'val', math.log(1 + math.sqrt(2)), None), ('arccoth(2)', 'val', 0.5 * math.log(3), None),
+    ('floor(2.5)', 'val', 2.0, None), ('ceil(2.5)', 'val', 3.0, None), ('conj(2+3*i)', 'val', complex(2, -3), None),
+    ('kronecker(2,2)', 'val', 1.0, None), ('arctan2(0,1)', 'val', _PI / 2, None),
+    ('arctan2(-1,0)', 'val', _PI, None),
 ]
 
 
